@@ -32,6 +32,13 @@ impl SwiftField for Field23 {
     where
         Self: Sized,
     {
+        // The parser works with byte offsets: refuse multi-byte characters up front
+        if !input.is_ascii() {
+            return Err(ParseError::InvalidFormat {
+                message: "Field 23 must contain only ASCII characters".to_string(),
+            });
+        }
+
         if input.len() < 4 {
             // Minimum: 3 char function code + 1 char reference
             return Err(ParseError::InvalidFormat {
@@ -146,6 +153,13 @@ impl SwiftField for Field23B {
     where
         Self: Sized,
     {
+        // The parser works with byte offsets: refuse multi-byte characters up front
+        if !input.is_ascii() {
+            return Err(ParseError::InvalidFormat {
+                message: "Field 23B must contain only ASCII characters".to_string(),
+            });
+        }
+
         // Must be exactly 4 characters
         let instruction_code = parse_exact_length(input, 4, "Field 23B instruction code")?;
 
@@ -203,6 +217,13 @@ impl SwiftField for Field23E {
     where
         Self: Sized,
     {
+        // The parser works with byte offsets: refuse multi-byte characters up front
+        if !input.is_ascii() {
+            return Err(ParseError::InvalidFormat {
+                message: "Field 23E must contain only ASCII characters".to_string(),
+            });
+        }
+
         if input.len() < 4 {
             return Err(ParseError::InvalidFormat {
                 message: format!(
